@@ -1,4 +1,4 @@
-import NitroVerif.Lemmas.CheckOpCompleteDefs
+import NitroVerif.Lemmas.CheckOpCompleteHeader
 /-!
 # C04 — `check` raises no diagnostic on spec-valid operation documents
 
@@ -380,6 +380,23 @@ theorem C04_no_false_alarm_partial (S : Schema) (D : Doc) (hS : SchemaValid S) (
     (hNE : noEmptyUnionB S = true) (hroots : rootsDefinedB S D = true) (hconst : constVarDefsB D = true) :
     checkOp S D = [] :=
   checkOp_nil_of (C04_no_false_alarm_document_level S D hv) (C04_no_false_alarm_bodies S D hS hv hNE hroots hconst)
+
+/-- **C04, from the implemented rules alone.** The checker is silent on every document that satisfies the 25 rules
+    nitrogql implements (`ImplementedRules`) — the four further rules of `SpecValid` (5.2.3.1b no introspection root
+    field in a subscription, 5.3.2 field merging, 5.5.1.4 fragments must be used, 5.8.4 variables must be used) are
+    not needed; same three side conditions. Together with C03 this characterises acceptance exactly
+    (`Props/C04Exact.lean`). -/
+theorem C04_no_false_alarm_implemented_rules (S : Schema) (D : Doc) (hS : SchemaValid S)
+    (h : ∀ r ∈ ImplementedRules, Holds r S D)
+    (hNE : noEmptyUnionB S = true) (hroots : rootsDefinedB S D = true) (hconst : constVarDefsB D = true) :
+    checkOp S D = [] :=
+  checkOp_nil_of_implemented hS h hNE hroots hconst
+
+/-- a spec-valid document satisfies the implemented rules, so the hypothesis above is satisfiable by the witness -/
+example (S : Schema) (D : Doc) (hv : SpecValid S D) : ∀ r ∈ ImplementedRules, Holds r S D := by
+  intro r _ f hf
+  unfold SpecValid specValidB at hv
+  exact List.all_eq_true.mp hv (r, f) hf
 
 /-- the model accepts the witness document (as the theorem says) -/
 example : checkOp c04Schema c04Doc = [] := by decide
